@@ -1,4 +1,5 @@
 import Cbor.Props.C07
+import Cbor.Lemmas.RoundTrip
 /-!
 # C03 — serialization emits exactly the RFC 8949 encoding of the tree
 
@@ -9,9 +10,10 @@ below state that the serializer model (`Model.serialize`, all heads written by t
 writes exactly those bytes, for every tree; the clauses of the statement are restated as facts about
 `Spec.encode` so that a reader can see the specification says what the property says.
 
-The round trip `load (serialize t) = t` is decided by the check (Spec.decode ∘ Spec.encode evaluated by the
-specification driver on every tree of the corpus, plus the ROUND correspondence of model and implementation);
-see DESIGN.md for what is and is not a theorem here.
+The round trip is a theorem too: `Spec.RT.decode_encode` (reference decoder ∘ `Spec.encode` = identity up
+to NaN canonicalisation, for every canonical tree within the nesting limit, whatever follows the encoding),
+lifted through `load_eq` to the model of `cbor_load` (`C03_roundtrip`), with `encode_renorm` for "serializing
+that tree again yields the identical bytes".
 -/
 namespace Props.C03
 open Model Spec Lemmas Lemmas.Ser Gen
@@ -89,5 +91,44 @@ theorem nan_canonical (b : Nat) :
     (Spec.Float.isNaN 8 23 b = true → encode (.single b) = Spec.headBytes 7 26 0x7FC00000) ∧
     (Spec.Float.isNaN 11 52 b = true → encode (.double b) = Spec.headBytes 7 27 0x7FF8000000000000) := by
   constructor <;> intro h <;> simp [encode, Spec.Float.canonSingle, Spec.Float.canonDouble, h]
+
+/-! ## the round trip -/
+
+/-- **Spec level.**  For every canonical tree (`Spec.RT.Canon`: scalars fit their width, lengths fit, simple values
+are the assigned ones, half floats hold a half-representable value) whose nesting is within the limit `L`, every
+buffer that begins with `Spec.encode t` decodes to the tree with NaNs canonical (`renorm`), consuming exactly the
+encoding. -/
+theorem C03_decode_encode (lz : Bool) (L : Nat) (t : Item) (hc : Spec.RT.Canon t) (hd : openDepth t ≤ L)
+    (get : Nat → UInt8) (len : Nat) (hat : Spec.RT.At get 0 (encode t)) (hl : (encode t).length ≤ len) :
+    Spec.decode lz L (fun _ => true) get len = .ok (Spec.RT.renorm t) (encode t).length :=
+  Spec.RT.decode_encode lz L get len _ Spec.RT.okAll_true t hc hd hat hl
+
+/-- **Through the model of `cbor_load`.**  Loading exactly the bytes the serializer writes for `t` succeeds, consumes
+all of them, yields the tree with NaNs canonical, raises no internal-consistency fault — and that tree serializes
+to the identical bytes. -/
+theorem C03_roundtrip (t : Item) (hv : Valid t) (hc : Spec.RT.Canon t) (L : Nat) (hd : openDepth t ≤ L)
+    (hsz : (encode t).length < 2 ^ 56) (r0 : LoadResult) :
+    let o := Model.load Lemmas.Refine.ωT L r0 (encode t).toArray
+    o.item = some (Spec.RT.renorm t) ∧ o.result.code = .none ∧ o.result.read = (encode t).length ∧ o.fault = false ∧
+    encode (Spec.RT.renorm t) = encode t := by
+  intro o
+  have hle := Lemmas.Refine.load_eq (encode t).toArray (by simpa using hsz) L r0
+  have hde := Spec.RT.decode_encode true L (Lemmas.Refine.getOf (encode t).toArray) (encode t).toArray.size _
+    Lemmas.RoundTrip.okAll_guard t hc hd (Lemmas.RoundTrip.at_toArray _) (by simp)
+  simp only at hle
+  rw [hde] at hle
+  exact ⟨hle.1, by rw [hle.2.1], by rw [hle.2.1], hle.2.2, Lemmas.RoundTrip.encode_renorm t hv⟩
+
+/-- a tree without NaN comes back unchanged: `renorm` only touches NaN payloads (single / double shown here) -/
+theorem renorm_single_of_not_nan (b : Nat) (h : Spec.Float.isNaN 8 23 b = false) : Spec.RT.renorm (.single b) = .single b := by
+  simp [Spec.RT.renorm, Spec.Float.canonSingle, h]
+
+theorem renorm_double_of_not_nan (b : Nat) (h : Spec.Float.isNaN 11 52 b = false) : Spec.RT.renorm (.double b) = .double b := by
+  simp [Spec.RT.renorm, Spec.Float.canonDouble, h]
+
+/-! non-vacuity: a nested tree meets the hypotheses of the round-trip theorems -/
+example : Spec.RT.Canon (.array [.uint .w8 7, .tag 2 (.bytesI [[1, 2], []]), .map [(.text [0x61], .simple 21)], .single 0x7FC00001]) ∧
+    openDepth (.array [.uint .w8 7, .tag 2 (.bytesI [[1, 2], []]), .map [(.text [0x61], .simple 21)], .single 0x7FC00001]) ≤ 3 := by
+  simp [Spec.RT.Canon, Spec.RT.CanonL, Spec.RT.CanonP, Width.bytes, openDepth, depthList, depthPairs]
 
 end Props.C03
